@@ -55,6 +55,7 @@ structure Blk where
   env : Env Float := { tol := 1e-8, ineqTol := 1e-15, minRel := 1e-23 }
   minSS : Float := 1e-27
   tkx : Float := 298.15
+  temps : List Float := []      -- temperatures of the calculations of this case so far (ss_prep leaves a0/a1 at the last one that differed from tk)
   iterations : Nat := 1
   npp : Nat := 0
   qs : Array QLine := #[]
@@ -177,8 +178,10 @@ def doS (b : Blk) (w : Array String) : List String :=
   let gl := match gp with
     | some (m0, m1) => if icase ≥ 0 then
         -- a0/a1 as defined, or as `ss_prep` rescaled them for the current temperature
-        [vline b "T" "ss-a0" ss (close 1e-12 1e-300 a0 m0 || close 1e-12 1e-300 a0 (a0AtT ag0 b.tkx)) a0 m0,
-         vline b "T" "ss-a1" ss (close 1e-12 1e-300 a1 m1 || close 1e-12 1e-300 a1 (a0AtT ag1 b.tkx)) a1 m1] else []
+        -- k_temp calls ss_prep(T) only when |T − ss.tk| > 0.01 and ss_prep stores T only with a spinodal gap, so after a
+        -- temperature excursion a0/a1 may still be those of an earlier temperature of the history
+        [vline b "T" "ss-a0" ss (close 1e-12 1e-300 a0 m0 || (b.tkx :: b.temps).any (fun t => close 1e-12 1e-300 a0 (a0AtT ag0 t))) a0 m0,
+         vline b "T" "ss-a1" ss (close 1e-12 1e-300 a1 m1 || (b.tkx :: b.temps).any (fun t => close 1e-12 1e-300 a1 (a0AtT ag1 t))) a1 m1] else []
     | none => []
   per ++ gl ++
   [vline b "T" "ss-total" ss (close 1e-14 1e-300 total tot) total tot,
@@ -338,10 +341,10 @@ partial def loop (h : IO.FS.Stream) (out : IO.FS.Stream) (b : Blk) (p : Probe) :
     return
   let w := (words line).toArray
   match w.getD 0 "" with
-  | "B" => loop h out { id := w.getD 1 "?", k := w.getD 2 "?" } p
+  | "B" => loop h out { id := w.getD 1 "?", k := w.getD 2 "?", temps := if b.id == w.getD 1 "?" then b.temps else [] } p
   | "G" =>
     let env : Env Float := { tol := fx (w.getD 8 ""), ineqTol := fx (w.getD 9 ""), minRel := fx (w.getD 10 "") }
-    loop h out { b with state := w.getD 1 "0", env := env, minSS := fx (w.getD 12 ""), tkx := fx (w.getD 13 ""), iterations := nat (w.getD 6 "1") } p
+    loop h out { b with state := w.getD 1 "0", env := env, minSS := fx (w.getD 12 ""), tkx := fx (w.getD 13 ""), temps := fx (w.getD 13 "") :: b.temps, iterations := nat (w.getD 6 "1") } p
   | "P" =>
     for l in doP b w do out.putStrLn l
     loop h out { b with npp := b.npp + 1 } p
@@ -360,7 +363,7 @@ partial def loop (h : IO.FS.Stream) (out : IO.FS.Stream) (b : Blk) (p : Probe) :
     let nex := (b.xs.toList.filter fun x => x.1 == "X").length
     let nsu := (b.xs.toList.filter fun x => x.1 == "U").length
     out.putStrLn s!"N {b.id} {b.k} {b.npp} {b.nss} {nex} {nsu} {b.state}"
-    loop h out {} p
+    loop h out { id := b.id, temps := b.temps } p
   | "PROBE" =>
     for l in doRound p do out.putStrLn l
     for l in doIneq p do out.putStrLn l
